@@ -41,6 +41,11 @@ func newMySQLUndoUpdateExecutor(sqlUndoLog undo.SQLUndoLog) *mySQLUndoUpdateExec
 }
 
 func (m *mySQLUndoUpdateExecutor) ExecuteOn(ctx context.Context, dbType types.DBType, conn *sql.Conn) error {
+	// an UPDATE that matched no row is logged with empty images: there is nothing to undo
+	if m.sqlUndoLog.BeforeImage == nil || len(m.sqlUndoLog.BeforeImage.Rows) == 0 {
+		return nil
+	}
+
 	ok, err := m.baseExecutor.dataValidationAndGoOn(ctx, conn)
 	if err != nil {
 		return err
